@@ -601,6 +601,7 @@ fn sets(rep: &mut Report, seed: u64, scale: u64) {
                         let mut ok = vec![];
                         a.verif_old_keys(usize::MAX, |x| ok.push(x.k()));
                         let by_take = g.chance(1, 2);
+                        let had_parked = !ok.is_empty();
                         for kk in ok {
                             let before2: BTreeMap<u64, u64> = a.iter().map(|x| (x.k(), x.id)).collect();
                             if by_take {
@@ -614,7 +615,8 @@ fn sets(rep: &mut Report, seed: u64, scale: u64) {
                             }
                             ra.remove(&kk);
                         }
-                        if let Some((0, ..)) = a.verif_state().old {
+                        // (an old table that was already empty — emptied in place by retain — is not released by these calls)
+                        if let (true, Some((0, ..))) = (had_parked, a.verif_state().old) {
                             problems.push(format!("{} took the last element out of the old table but the table is still allocated", if by_take { "take" } else { "remove" }));
                             c03 = true;
                             let _ = c03;
